@@ -218,6 +218,55 @@ def gen_sort(ctx, scale, maxlen):
             cases.append(line('SORT', r.choice(['p', 'h']), pairs))
     return cases
 
+def gen_radix(ctx, scale, narrow):
+    """RadixSorter<R> on W-bit codes and on pointers.  narrow=True: only the R > W combinations with more items than the
+    selection-sort threshold (run in a separate stage: see KNOWN key below)"""
+    r = ctx.rng; cases = []
+    for R in range(1, 17):
+        T = 2 ** (R // 2 + 1)
+        for W in (8, 16, 32, 64):
+            if narrow != (R > W): continue
+            sizes = [T + 1, 2 * T + 3] if narrow else [0, 1, 2, 3, T - 1, T, T + 1, 2 * T + 3, 5 * T + r.below(50)]
+            for n in sizes:
+                for dist in ('uniform', 'few', 'low', 'high', 'one'):
+                    if n < 3 and dist != 'uniform': continue
+                    if dist == 'uniform': vals = [r.below(2 ** W) for _ in range(n)]
+                    elif dist == 'few':
+                        pool = [r.below(2 ** W) for _ in range(r.range(1, 5))] + [0, 2 ** W - 1]
+                        vals = [r.choice(pool) for _ in range(n)]
+                    elif dist == 'low': vals = [r.below(min(2 ** W, 2 ** r.range(1, 9))) for _ in range(n)]
+                    elif dist == 'high': vals = [(r.below(16) << (W - 4)) | (r.below(2) if r.chance(1, 3) else 0) for _ in range(n)]
+                    else: vals = [r.below(2 ** W)] * n
+                    cases.append('RADIX %d %d %d %s' % (R, W, n, ' '.join(map(str, vals))))
+        if not narrow:
+            for n in (0, 1, 2, 3, T, T + 1, 3 * T + 1):
+                cases.append('RADIXP %d %d %s' % (R, n, ' '.join(str(r.below(65536 if r.chance(1, 2) else 40)) for _ in range(n))))
+    return cases
+
+def radix_oracle(ctx, c, out):
+    w = c.split()
+    if out.startswith('OOB'): return 'RadixSorter wrote outside the array'
+    try:
+        body, grp = out.split('|')
+        got = list(map(int, body.split()))
+    except ValueError:
+        return 'unparsable output %r' % out[:80]
+    vals = list(map(int, w[4:])) if w[0] == 'RADIX' else list(map(int, w[3:]))
+    exp = sorted(vals)
+    if got != exp: return 'RadixSorter<%s> output is not the sorted input (first difference at %d)' % (w[1], next((i for i in range(min(len(got), len(exp))) if got[i] != exp[i]), -1))
+    if w[0] == 'RADIX':
+        runs = []; i = 0
+        while i < len(exp):
+            j = i
+            while j < len(exp) and exp[j] == exp[i]: j += 1
+            if j - i > 2: runs.append('%d:%d' % (i, j - i))
+            i = j
+        if grp.split() != runs: return 'groupFunc calls %s do not match the runs of equal codes %s' % (grp.split()[:5], runs[:5])
+    if len(vals) >= 3: ctx.nontrivial.add(c)
+    return None
+
+KNOWN_NARROW = 'radixsorter-radix-wider-than-code'
+
 # ---------------------------------------------------------------- oracle (independent of the Coq model)
 def parse_case(c):
     w = c.split(); op, var, n = w[0], w[1], int(w[2])
@@ -229,6 +278,8 @@ def parse_case(c):
 def oracle_one(ctx, c, out):
     """returns None or a description of the violation; the property predicate evaluated on the real code's output"""
     w = c.split()
+    if w[0] in ('RADIX', 'RADIXP'):
+        return radix_oracle(ctx, c, out)
     if w[0] in ('MS', 'SC', 'CMP'):
         a = int(w[1]); b = int(w[2]) if len(w) > 2 else 0
         try: v = int(out)
@@ -312,10 +363,13 @@ def run_oracle(ctx, harness, cases, name):
     return bad, lines
 
 def replay(ctx, rp):
-    harness = ctx.cxx('harness.cpp', 'harness')
+    case = rp.get('case')
+    if case and case.startswith('RADIX'):
+        harness = ctx.cxx('harness_radix.cpp', 'harness_radix', ['-fsanitize=shift', '-fno-sanitize-recover=all'])
+    else:
+        harness = ctx.cxx('harness.cpp', 'harness')
     if harness is None:
         print('harness does not build'); return 2
-    case = rp.get('case')
     if not case:
         print('replay has no concrete case (no-failing-input-found): broken stages were', list(rp.get('broken', {}).keys())); return 1
     bad, lines = run_oracle(ctx, harness, [case], 'replay')
@@ -340,8 +394,10 @@ def run(ctx):
                         'HashSorter::Sort / RadixSorter are not modelled: their real output is validated every run by the verified checker (partial)']
     ctx.regen(GEN)
     ctx.prove()
-    harness = ctx.cxx('harness.cpp', 'harness')
-    if harness is None:
+    exes = ctx.cxx_many([('harness.cpp', 'harness', []),
+                         ('harness_radix.cpp', 'harness_radix', ['-fsanitize=shift', '-fno-sanitize-recover=all'])])
+    harness = exes.get('harness'); hradix = exes.get('harness_radix')
+    if harness is None or hradix is None:
         ctx.stage('build-harness', False, getattr(ctx, 'last_cxx_error', ''))
         return ctx.finish(rule=RULE)
     leaves = gen_leaves(ctx, scale)
@@ -353,7 +409,21 @@ def run(ctx):
     for name, cs in (('oracle-leaves', leaves), ('oracle-small', small), ('oracle-long', longc)):
         b, _ = run_oracle(ctx, harness, cs, name); bad += b
     b, sort_out = run_oracle(ctx, harness, sorts, 'oracle-sort'); bad += b
-    if any(not s['ok'] for s in ctx.stages.values()) or bad:
+    radix = gen_radix(ctx, scale, False)
+    b, _ = run_oracle(ctx, hradix, radix, 'oracle-radix'); bad += b
+    # radix size wider than the code type: separate run (built with -fsanitize=shift), one violation with a stable key
+    narrow = gen_radix(ctx, scale, True)
+    nb, _ = run_oracle(ctx, hradix, narrow, 'oracle-radix-narrow')
+    if nb:
+        recorded = ctx.violation('RadixSorter<R> with R > 8*sizeof(Code): ' + nb[0][2],
+                                 {'case': nb[0][0], 'impl_output': nb[0][1][:500], 'harness': 'harness_radix',
+                                  'cmd': 'echo "<case>" | build/C17/harness_radix   (built with -fsanitize=shift)'},
+                                 found_input=True, key=KNOWN_NARROW)      # False when known_findings.txt lists the key
+        ctx.stage('oracle-radix-narrow', not recorded, nb[0][2])
+    else:
+        ctx.stage('oracle-radix-narrow', True)
+    narrow_broken = bool(nb)
+    if any(not st['ok'] for n_, st in ctx.stages.items() if n_ != 'oracle-radix-narrow') or bad:
         ctx.log('a stage broke: searching the implementation with the thorough generator')
         extra = gen_small(ctx, 7) if maxlen < 7 else []
         extra += gen_long(ctx, 4) + gen_sort(ctx, 3, 6)
@@ -379,11 +449,12 @@ def run(ctx):
             for (i, c, a, b) in mism[:2]:
                 ctx.violation('model and implementation disagree (%s)' % name, {'case': c, 'impl': a[:2000], 'model': b[:2000],
                               'cmd': 'echo "<case>" | build/C17/harness'}, found_input=True)
-    allc = leaves + small + longc + sorts
+    allc = leaves + small + longc + sorts + radix + narrow
     for c in (small[len(small) // 2], small[-1], longc[0], sorts[len(sorts) // 3], leaves[5]):
         ctx.add_sample(c[:300])
-    ctx.coverage['input_distribution'] = {k: sum(1 for c in allc if c.startswith(k + ' ')) for k in ('MS', 'SC', 'CMP', 'FH', 'F', 'B', 'S', 'SORT')}
+    ctx.coverage['input_distribution'] = {k: sum(1 for c in allc if c.startswith(k + ' ')) for k in ('MS', 'SC', 'CMP', 'FH', 'F', 'B', 'S', 'SORT', 'RADIX', 'RADIXP')}
     ctx.coverage['max_array_length'] = max(int(c.split()[2]) for c in longc + sorts)
+    ctx.coverage['radix'] = 'RadixSorter<1..16> x codes of 8/16/32/64 bits x sizes around the selection-sort threshold 2^(R/2+1) + pointers; std sorted() oracle + groupFunc-call oracle'
     return ctx.finish(rule=RULE)
 
 RULE = ('cases = ALL sequences of length 0..6 (7 thorough) over 3 item ids x 5 hash functions (constant, 2-valued collisions, extreme 0/2^64-1, '
